@@ -13,7 +13,9 @@ def cfg_str(c):
     d = dict(DEFAULT_CFG); d.update(c)
     order = ["lmtp", "lmtpsess", "maxrcpt", "maxmsg", "maxline", "insecure", "tls", "utf8", "reqtls", "binmime", "dsn",
              "rrvs", "rt", "authsess", "mechs"]
-    return ",".join("%s=%s" % (k, d[k]) for k in order)
+    # `debug=1` (Server.Debug set: every octet read and written is also copied to a writer) is appended only when set, so that
+    # case lines without it stay as they were
+    return ",".join("%s=%s" % (k, d[k]) for k in order) + (",debug=1" if d.get("debug") else "")
 
 
 def se(code, enh, msg):
